@@ -371,12 +371,72 @@ type Flow struct {
 	Source  func(v ssa.Value) *Abs // optional: extra abstract value joined in for v (taint sources)
 	changed bool
 	frozen  map[ssa.Value]bool // values whose abstraction is fixed (context evaluation)
+	// polyvariant helpers: unexported functions analysed once per call site. A context flow shares Val/Cell/Ret
+	// with its parent (effects write through) and keeps the helper's own values in overlay.
+	poly    map[*ssa.Function]bool
+	ctxs    map[ssa.CallInstruction]*Flow
+	parent  *Flow
+	local   map[ssa.Value]bool
+	overlay map[ssa.Value]*Abs
+	ownRet  []*Abs                      // a context's own return values
+	polyOf  map[ssa.Value]*ssa.Function // value -> the polyvariant helper defining it
 	// NoTaintCallee: external callees whose results never carry their arguments' text
 	NoTaint map[string]bool
 }
 
 func (p *Prog) NewFlow(funcs []*ssa.Function) *Flow {
+	f := p.newFlow0(funcs)
+	inSet := map[*ssa.Function]bool{}
+	for _, fn := range funcs {
+		inSet[fn] = true
+	}
+	for _, fn := range funcs {
+		if fn.Parent() != nil || fn.Object() == nil || fn.Object().Exported() || addrTaken(fn) || len(fn.AnonFuncs) > 0 {
+			continue
+		}
+		sites := p.Callers(fn)
+		if len(sites) < 2 || len(sites) > 40 {
+			continue
+		}
+		hasStr, okSites, recursive := false, true, false
+		for _, pr := range fn.Params {
+			if isStringType(pr.Type()) {
+				hasStr = true
+			}
+		}
+		for _, cs := range sites {
+			if cs.Common().IsInvoke() || !inSet[cs.Parent()] || cs.Parent() == fn {
+				okSites = false
+			}
+			if _, isCall := cs.(*ssa.Call); !isCall {
+				okSites = false
+			}
+		}
+		for _, cs := range CallSites(fn) {
+			if cs.Common().StaticCallee() == fn {
+				recursive = true
+			}
+		}
+		if hasStr && okSites && !recursive {
+			f.poly[fn] = true
+			for _, b := range fn.Blocks {
+				for _, in := range b.Instrs {
+					if v, ok := in.(ssa.Value); ok {
+						f.polyOf[v] = fn
+					}
+				}
+			}
+			for _, pr := range fn.Params {
+				f.polyOf[pr] = fn
+			}
+		}
+	}
+	return f
+}
+
+func (p *Prog) newFlow0(funcs []*ssa.Function) *Flow {
 	return &Flow{p: p, funcs: funcs, Val: map[ssa.Value]*Abs{}, Cell: map[interface{}]*Abs{}, Ret: map[*ssa.Function][]*Abs{},
+		poly: map[*ssa.Function]bool{}, ctxs: map[ssa.CallInstruction]*Flow{}, polyOf: map[ssa.Value]*ssa.Function{},
 		NoTaint: map[string]bool{
 			"(*bufio.Writer).WriteString": true, "(*bufio.Writer).Flush": true, "(*bufio.Writer).Write": true,
 			"strings.HasPrefix": true, "strings.HasSuffix": true, "strings.Index": true, "strings.LastIndex": true, "strings.IndexAny": true, "strings.Contains": true,
@@ -397,6 +457,24 @@ func (f *Flow) get(v ssa.Value) *Abs {
 		return top()
 	case *ssa.Global:
 		return f.cell(t)
+	}
+	if f.local != nil && f.local[v] {
+		if a, ok := f.overlay[v]; ok {
+			return a
+		}
+		return bot()
+	}
+	if f.parent == nil {
+		if _, isPoly := f.polyOf[v]; isPoly {
+			// a value of a polyvariant helper seen from outside: join over its contexts
+			acc := bot()
+			for _, cx := range f.ctxs {
+				if cx.local[v] {
+					acc = join(acc, cx.overlay[v])
+				}
+			}
+			return acc
+		}
 	}
 	if a, ok := f.Val[v]; ok {
 		return a
@@ -422,14 +500,25 @@ func (f *Flow) set(v ssa.Value, a *Abs) {
 			a = join(a, s)
 		}
 	}
-	old, ok := f.Val[v]
+	m := f.Val
+	if f.local != nil && f.local[v] {
+		m = f.overlay
+	}
+	old, ok := m[v]
 	n := a
 	if ok {
 		n = join(old, a)
 	}
 	if !ok || !eqAbs(old, n) {
-		f.Val[v] = n
-		f.changed = true
+		m[v] = n
+		f.markChanged()
+	}
+}
+
+func (f *Flow) markChanged() {
+	f.changed = true
+	if f.parent != nil {
+		f.parent.changed = true
 	}
 }
 
@@ -444,7 +533,7 @@ func (f *Flow) addCell(k interface{}, a *Abs) {
 	}
 	if !ok || !eqAbs(old, n) {
 		f.Cell[k] = n
-		f.changed = true
+		f.markChanged()
 	}
 }
 
@@ -480,10 +569,55 @@ func (f *Flow) Run() {
 	for iter := 0; iter < 200; iter++ {
 		f.changed = false
 		for _, fn := range f.funcs {
+			if f.poly[fn] {
+				f.stepPoly(fn)
+				continue
+			}
 			f.stepFunc(fn)
 		}
 		if !f.changed {
 			return
+		}
+	}
+}
+
+// stepPoly evaluates a polyvariant helper once per call site, each in its own
+// context whose effects (callee bindings, cells, channel contents) write
+// through to the shared maps.
+func (f *Flow) stepPoly(fn *ssa.Function) {
+	for _, cs := range f.p.Callers(fn) {
+		cx := f.ctxs[cs]
+		if cx == nil {
+			cx = &Flow{p: f.p, funcs: f.funcs, Val: f.Val, Cell: f.Cell, Ret: f.Ret, Source: f.Source, NoTaint: f.NoTaint,
+				poly: f.poly, ctxs: map[ssa.CallInstruction]*Flow{}, polyOf: f.polyOf, parent: f, local: map[ssa.Value]bool{}, overlay: map[ssa.Value]*Abs{}}
+			for _, b := range fn.Blocks {
+				for _, in := range b.Instrs {
+					if v, ok := in.(ssa.Value); ok {
+						cx.local[v] = true
+					}
+				}
+			}
+			for _, pr := range fn.Params {
+				cx.local[pr] = true
+			}
+			f.ctxs[cs] = cx
+		}
+		args := cs.Common().Args
+		for i, pr := range fn.Params {
+			if i < len(args) {
+				cx.set(pr, f.At(args[i], cs.Block()))
+			}
+		}
+		for it := 0; it < 20; it++ {
+			cx.changed = false
+			for _, b := range fn.Blocks {
+				for _, in := range b.Instrs {
+					cx.stepInstr(fn, b, in)
+				}
+			}
+			if !cx.changed {
+				break
+			}
 		}
 	}
 }
@@ -698,7 +832,17 @@ func (f *Flow) stepInstr(fn *ssa.Function, b *ssa.BasicBlock, in ssa.Instruction
 			n := join(rs[i], a)
 			if !eqAbs(rs[i], n) {
 				rs[i] = n
-				f.changed = true
+				f.markChanged()
+			}
+			if f.parent != nil {
+				for len(f.ownRet) <= i {
+					f.ownRet = append(f.ownRet, nil)
+				}
+				n2 := join(f.ownRet[i], a)
+				if !eqAbs(f.ownRet[i], n2) {
+					f.ownRet[i] = n2
+					f.markChanged()
+				}
 			}
 		}
 	case *ssa.Call:
@@ -856,6 +1000,25 @@ func (f *Flow) call(fn *ssa.Function, b *ssa.BasicBlock, site ssa.CallInstructio
 		}
 		callee := e.Callee
 		params := callee.Params
+		if idx, seps, ok := f.p.scanCutSummary(callee); ok && !cc.IsInvoke() && idx < len(args) {
+			// a hand-written "cut at the first of seps" loop: use its exact summary
+			acc = join(acc, cutAt(args[idx], cc.Args[idx], seps))
+			if idx < len(params) {
+				f.set(params[idx], args[idx])
+			}
+			continue
+		}
+		if f.poly[callee] {
+			// bound per context in stepPoly; the result is that context's own return value
+			root := f
+			if f.parent != nil {
+				root = f.parent
+			}
+			if cx := root.ctxs[site]; cx != nil && len(cx.ownRet) == 1 && cx.ownRet[0] != nil {
+				acc = join(acc, translateCut(cx.ownRet[0], callee, cc))
+			}
+			continue
+		}
 		if cc.IsInvoke() {
 			if len(params) > 0 {
 				f.set(params[0], f.get(cc.Value))
@@ -876,7 +1039,7 @@ func (f *Flow) call(fn *ssa.Function, b *ssa.BasicBlock, site ssa.CallInstructio
 			}
 		}
 		if rs := f.Ret[callee]; len(rs) == 1 && rs[0] != nil {
-			acc = join(acc, rs[0])
+			acc = join(acc, translateCut(rs[0], callee, cc))
 		}
 	}
 	if res == nil {
@@ -1131,7 +1294,8 @@ func cutAt(a *Abs, src ssa.Value, seps bset) *Abs {
 // WithParams re-evaluates fn with its parameters bound to args only (one
 // calling context), everything else taken from the global fixpoint.
 func (f *Flow) WithParams(fn *ssa.Function, args []*Abs) *Flow {
-	sub := &Flow{p: f.p, funcs: []*ssa.Function{fn}, Val: map[ssa.Value]*Abs{}, Cell: map[interface{}]*Abs{}, Ret: map[*ssa.Function][]*Abs{}, Source: f.Source, NoTaint: f.NoTaint, frozen: map[ssa.Value]bool{}}
+	sub := &Flow{p: f.p, funcs: []*ssa.Function{fn}, Val: map[ssa.Value]*Abs{}, Cell: map[interface{}]*Abs{}, Ret: map[*ssa.Function][]*Abs{}, Source: f.Source, NoTaint: f.NoTaint, frozen: map[ssa.Value]bool{},
+		poly: map[*ssa.Function]bool{}, ctxs: map[ssa.CallInstruction]*Flow{}, polyOf: map[ssa.Value]*ssa.Function{}}
 	local := map[ssa.Value]bool{}
 	for _, fx := range AnonClosure(fn) {
 		for _, b := range fx.Blocks {
@@ -1145,6 +1309,12 @@ func (f *Flow) WithParams(fn *ssa.Function, args []*Abs) *Flow {
 	for k, v := range f.Val {
 		if !local[k] {
 			sub.Val[k] = v
+		}
+	}
+	// values of polyvariant helpers (other than fn) as seen from outside
+	for v := range f.polyOf {
+		if !local[v] {
+			sub.Val[v] = f.get(v)
 		}
 	}
 	for k, v := range f.Cell {
@@ -1167,4 +1337,207 @@ func (f *Flow) WithParams(fn *ssa.Function, args []*Abs) *Flow {
 		}
 	}
 	return sub
+}
+
+// scanCutSummary recognises a function of one string parameter s of the shape
+//
+//	for i := 0; i < len(s); i++ { if s[i] == c1 || s[i] == c2 ... { return s[:i] } }
+//	return s
+//
+// i.e. "s truncated at the first byte of {c1, c2, ...}". The match is exact:
+// ascending scan from 0 by 1, every branch in the loop compares s[i] with a
+// constant, a match returns s[:i], no match continues, falling out returns s.
+func (p *Prog) scanCutSummary(fn *ssa.Function) (int, bset, bool) {
+	var none bset
+	if fn == nil || fn.Blocks == nil || len(fn.Params) == 0 || fn.Signature.Results().Len() != 1 {
+		return 0, none, false
+	}
+	if v, ok := p.scanCutMemo[fn]; ok {
+		return v.idx, v.seps, v.ok
+	}
+	res := scanCutRes{}
+	defer func() { p.scanCutMemo[fn] = res }()
+	pi := -1
+	for i, pr := range fn.Params {
+		if isStringType(pr.Type()) {
+			if pi >= 0 {
+				return 0, none, false
+			}
+			pi = i
+		}
+	}
+	if pi < 0 {
+		return 0, none, false
+	}
+	s := ssa.Value(fn.Params[pi])
+	li := p.Loops(fn)
+	var hdr *ssa.BasicBlock
+	for b := range li.isHead {
+		if hdr != nil {
+			return 0, none, false
+		}
+		hdr = b
+	}
+	if hdr == nil {
+		return 0, none, false
+	}
+	// counter phi
+	var iv *ssa.Phi
+	for _, in := range hdr.Instrs {
+		ph, ok := in.(*ssa.Phi)
+		if !ok {
+			break
+		}
+		if iv != nil {
+			return 0, none, false
+		}
+		iv = ph
+	}
+	if iv == nil || len(iv.Edges) != 2 {
+		return 0, none, false
+	}
+	zero, inc := false, false
+	for _, e := range iv.Edges {
+		if k, ok := constInt(e); ok && k == 0 {
+			zero = true
+		}
+		if bo, ok := e.(*ssa.BinOp); ok && bo.Op == token.ADD && bo.X == ssa.Value(iv) {
+			if k, ok := constInt(bo.Y); ok && k == 1 {
+				inc = true
+			}
+		}
+	}
+	if !zero || !inc {
+		return 0, none, false
+	}
+	// header condition: i < len(s)
+	iff, ok := hdr.Instrs[len(hdr.Instrs)-1].(*ssa.If)
+	if !ok {
+		return 0, none, false
+	}
+	bo, ok := iff.Cond.(*ssa.BinOp)
+	if !ok || bo.Op != token.LSS || bo.X != ssa.Value(iv) {
+		return 0, none, false
+	}
+	if lc, ok := bo.Y.(*ssa.Call); !ok || !p.isLenCall(lc) || lc.Call.Args[0] != s {
+		return 0, none, false
+	}
+	exit := hdr.Succs[1]
+	// exit path returns s
+	if len(exit.Instrs) == 0 {
+		return 0, none, false
+	}
+	if rt, ok := exit.Instrs[len(exit.Instrs)-1].(*ssa.Return); !ok || len(rt.Results) != 1 || rt.Results[0] != s || len(exit.Instrs) > 2 {
+		return 0, none, false
+	}
+	// loop body blocks
+	var seps bset
+	nCmp := 0
+	var retBlock *ssa.BasicBlock
+	for b, hs := range li.headers {
+		if !hs[hdr] || b == hdr {
+			continue
+		}
+		last := b.Instrs[len(b.Instrs)-1]
+		switch t := last.(type) {
+		case *ssa.If:
+			cmp, ok := t.Cond.(*ssa.BinOp)
+			if !ok || cmp.Op != token.EQL {
+				return 0, none, false
+			}
+			ix, ok := cmp.X.(*ssa.Index)
+			if !ok || ix.X != s || ix.Index != ssa.Value(iv) {
+				return 0, none, false
+			}
+			k, ok := constInt(cmp.Y)
+			if !ok || k < 0 || k > 255 {
+				return 0, none, false
+			}
+			seps.add(byte(k))
+			nCmp++
+			// true edge must leave the loop to the return block
+			tb := b.Succs[0]
+			if li.headers[tb][hdr] {
+				return 0, none, false
+			}
+			if retBlock != nil && retBlock != tb {
+				return 0, none, false
+			}
+			retBlock = tb
+			// only the comparison operands may be computed in compare blocks
+			for _, in := range b.Instrs {
+				switch in.(type) {
+				case *ssa.Index, *ssa.BinOp, *ssa.If, *ssa.DebugRef:
+				default:
+					return 0, none, false
+				}
+			}
+		case *ssa.Jump:
+			// latch: i+1 only
+			for _, in := range b.Instrs {
+				switch in.(type) {
+				case *ssa.BinOp, *ssa.Jump, *ssa.DebugRef:
+				default:
+					return 0, none, false
+				}
+			}
+		default:
+			return 0, none, false
+		}
+	}
+	if nCmp == 0 || retBlock == nil {
+		return 0, none, false
+	}
+	rt, ok := retBlock.Instrs[len(retBlock.Instrs)-1].(*ssa.Return)
+	if !ok || len(rt.Results) != 1 {
+		return 0, none, false
+	}
+	sl, ok := rt.Results[0].(*ssa.Slice)
+	if !ok || sl.X != s || sl.Low != nil || sl.High != ssa.Value(iv) {
+		return 0, none, false
+	}
+	// nothing before the loop but the jump into it
+	for _, b := range fn.Blocks {
+		if b == hdr || b == exit || b == retBlock || li.headers[b][hdr] {
+			continue
+		}
+		for _, in := range b.Instrs {
+			switch in.(type) {
+			case *ssa.Jump, *ssa.DebugRef, *ssa.Call:
+				if c, isC := in.(*ssa.Call); isC && !p.isLenCall(c) {
+					return 0, none, false
+				}
+			default:
+				return 0, none, false
+			}
+		}
+	}
+	res = scanCutRes{pi, seps, true}
+	return pi, seps, true
+}
+
+type scanCutRes struct {
+	idx  int
+	seps bset
+	ok   bool
+}
+
+// translateCut: a callee result described as "cut of the callee's parameter"
+// is, for this call, the cut of the corresponding actual argument.
+func translateCut(a *Abs, callee *ssa.Function, cc *ssa.CallCommon) *Abs {
+	if a == nil || a.Cut == nil || cc.IsInvoke() {
+		return a
+	}
+	pr, ok := a.Cut.Src.(*ssa.Parameter)
+	if !ok || pr.Parent() != callee {
+		return a
+	}
+	for i, q := range callee.Params {
+		if q == pr && i < len(cc.Args) {
+			n := a.clone()
+			n.Cut = &CutInfo{cc.Args[i], a.Cut.Seps}
+			return n
+		}
+	}
+	return a
 }
